@@ -171,7 +171,7 @@ def lag_conformance(ctx, behaviours, rng):
     hists = [translate_lag(b, rng, scn) for b in behaviours]
     for _ in range(len(behaviours) // 2):
         # (partitions are not part of MasterLag.tla)
-        hists.append([e for e in gen_stale(scn, rng) if e[0] != 'SetPartition'])
+        hists.append([e for e in gen_stale(scn, rng) if e[0] not in ('SetPartition', 'DetachRack')])
     traces = mc.record('lag', hists)
     verdicts, stats = mc.validate_lag(traces)
     ctx.cmds.append(stats['cmd'])
@@ -289,8 +289,10 @@ def gen_stale(scn, rng):
             exists.add(s)
         elif r < 0.8 and apps:
             h.append(('DeleteApp', [apps.pop(rng.randrange(len(apps)))]))
-        elif r < 0.9 and s in exists:
+        elif r < 0.87 and s in exists:
             h.append(('SetPartition', [s, rng.choice(['_default', 'pB'])]))
+        elif r < 0.94:
+            h.append(('DetachRack', [rng.choice(sorted(scn['racks']))]))
         else:
             h.append(('Tick', [rng.choice([1, 6])]))
     h.append(('StaleCycle', []))
@@ -520,7 +522,7 @@ def selftest(ctx, prop):
         # binding: a recorded lag trace with one corrupted observation is rejected
         rng = random.Random(7)
         scn = mc.SCENARIOS['lag']
-        traces = mc.record('lag', [[e for e in gen_stale(scn, rng) if e[0] != 'SetPartition']
+        traces = mc.record('lag', [[e for e in gen_stale(scn, rng) if e[0] not in ('SetPartition', 'DetachRack')]
                                    for _ in range(12)])
         clean, _ = mc.validate_lag(traces)
         import copy
